@@ -363,10 +363,17 @@ def _configs(tier):
             p.update({"min_success": 1, "pert_min_success": pms,
                       "fail": {"point": 1, "realization": 1, "perts": perts, "center": None}})
             out.append((p, dict_kinds(p, True), S, True))
+    # a large convergence tolerance is configured and pool point 3 is close to pool point 0 (3/512 per coordinate:
+    # more than 1e-3(1+|x|), less than the tolerance): the tolerance is the algorithm's business, not the cache's
+    N = [["s", 0], ["s", 3], ["s", 1]]
+    for method, fam, grad in (("slsqp", (True, True), True), ("l-bfgs-b", (False, False), True), ("cobyla", (True, False), False)):
+        p = _problem(method, *fam)
+        p.update({"tol": 1.0 / 64, "_near": True})
+        out.append((p, dict_kinds(p, grad), N, True))
     return out
 
 
-def _all_rows(prob, kinds):
+def _all_rows(prob, kinds, pts=(0, 1)):
     """every normalised row (not only the first and the last one), asked first or after a request of another kind"""
     n = _n_rows(prob)
     has_jac = any(k[0] == "jac" for k in kinds)
@@ -377,7 +384,7 @@ def _all_rows(prob, kinds):
     for first in firsts:
         for k in range(n):
             for kind in (("con", "jac") if has_jac else ("con",)):
-                for pt in (0, 1):
+                for pt in pts:
                     out.append(([first] if first else []) + [[kind, k, ["s", pt]]])
     return out
 
@@ -387,6 +394,7 @@ def _shift(op, n):
     return op[:-1] + [["s", pt[1] + n] if pt[0] == "s" else ["b", [i + n for i in pt[1]]]]
 
 
+NEAR = 3.0 / 512
 CHAIN = 100           # sequences run back to back on one plug-in object (one start() each)
 
 
@@ -396,6 +404,8 @@ def gen_cases(tier, rng):
     for prob, kinds, pts, short in _configs(tier):
         n_full = len(prob["x0"])
         pool = pool_by_n[prob["_nfree"]]
+        if prob.get("_near"):
+            pool = pool + [[v + NEAR for v in pool[0]]]
         funcs = funcs_by_n[n_full]
         nk, npt = len(kinds), len(pts)
         # exhaustive: all sequences up to length 2 (3 when the alphabet is small) over all points, and the
@@ -418,7 +428,7 @@ def gen_cases(tier, rng):
             if len(s) > full_len and cq_key(s) not in seen:
                 seqs.append(s)
         if any(k[0] == "con" for k in kinds):
-            for s in _all_rows(prob, kinds):
+            for s in _all_rows(prob, kinds, (0, 3) if prob.get("_near") else (0, 1)):
                 if cq_key(s) not in seen:
                     seen.add(cq_key(s))
                     seqs.append(s)
@@ -449,6 +459,9 @@ def gen_cases(tier, rng):
                     case["pool_start"] = [0] * n + [1] * n
                     case["starts"] = [prob["start"], [v if m else v - 0.5 for v, m in zip(prob["start"], prob["mask"])]]
                     case["seqs"] = [s if j % 2 == 0 else [_shift(o, n) for o in s] for j, s in enumerate(chain)]
+                    # ... and the FREE part of a run's start vector is the point the previous run asked for last
+                    # (a restart "where we stopped", with other values of the fixed variables)
+                    case["restart_at_last_point"] = True
                 yield case
 
 
@@ -475,11 +488,17 @@ def _pt_of(env, pool_full, arr, parallel, cands=None):
     return ["b", [idx(arr[k]) for k in range(arr.shape[0])]]
 
 
-def _nearest(pool_full, v):
+def _nearest(pool_full, v, free=None):
+    """the pool point of which `v` is a perturbation: v = p + MAGNITUDE * (a row of the injected samples, zero on
+    fixed variables); exact, so that pool points closer together than a perturbation stay distinguishable"""
     import numpy as np
-    d = [float(np.max(np.abs(v - p))) for p in pool_full]
-    i = int(np.argmin(d))
-    return i if d[i] <= 2 * MAGNITUDE else 99
+    S = np.array(_SAMPLES, dtype=float)[:, :, :len(v)].reshape(-1, len(v))
+    if free is not None:
+        S = S * np.asarray(free, dtype=float)
+    D = (v[None, :] - np.asarray(pool_full)) / MAGNITUDE                     # (points, variables)
+    hit = (np.abs(D[:, None, :] - S[None, :, :]) <= 1e-6).all(axis=2).any(axis=1)
+    hits = np.flatnonzero(hit)
+    return int(hits[0]) if len(hits) == 1 else 99
 
 
 def _exact(pool_full, v):
@@ -503,13 +522,13 @@ def _ev_kind(env, pool_full, x, pert, inv_pt):
     if (pert >= 0).all():
         if x.shape[0] != nr * N_PERT:
             return ["bad"]
-        ids = {_nearest(pool_full, v) for v in x}
+        ids = {_nearest(pool_full, v, env.free) for v in x}
         return ["G", ids.pop()] if len(ids) == 1 else ["bad"]
     unp = x[pert < 0]
     if unp.shape[0] != nr or x.shape[0] != nr * (1 + N_PERT) or not all(np.array_equal(v, unp[0]) for v in unp):
         return ["bad"]
     i = _exact(pool_full, unp[0])
-    if i == 99 or {_nearest(pool_full, v) for v in x[pert >= 0]} != {i}:
+    if i == 99 or {_nearest(pool_full, v, env.free) for v in x[pert >= 0]} != {i}:
         return ["bad"]
     return ["FG", i]
 
@@ -561,7 +580,18 @@ def run_impl(case):
                 return pool_start[ids[0]]
         return 0
 
+    def start_vector(k_start, prev):
+        """the vector handed to start(): the run's explicit start vector; with `restart_at_last_point` its free
+        entries are the free coordinates of the single point the previous run requested last"""
+        base = starts[k_start]
+        if not case.get("restart_at_last_point") or not prev or prev[-1][-1][0] != "s":
+            return base
+        full = np.array(base if base is not None else prob["x0"], dtype=float)
+        full[env.free] = pool[prev[-1][-1][1]]
+        return full
+
     opt = env.make_optimizer() if case.get("chain") else None
+    prev_seq = None
     for seq in case["seqs"]:
         k_start = start_of(seq)
         cands = [i for i, k in enumerate(pool_start) if k == k_start]      # the pool points of this run
@@ -608,8 +638,9 @@ def run_impl(case):
                 out.append({"ret": r, "inv": invs})
             return out
         env.log.clear()
-        res = env.start(driver, opt, starts[k_start])
+        res = env.start(driver, opt, start_vector(k_start, prev_seq))
         runs.append(res.get("result"))
+        prev_seq = seq
     return {"table": table, "runs": runs, "structure": structure}
 
 
@@ -862,6 +893,8 @@ def features(case, obs):
             "one_object_started_repeatedly": bool(case.get("chain")),
             "method_spelling": "as-is" if p.get("spelling") in (None, p["method"]) else "prefixed/upper-case/default",
             "explicit_start_vector": p.get("start") is not None,
+            "restart_at_last_point_with_other_fixed_values": bool(case.get("restart_at_last_point")),
+            "tolerance_larger_than_point_spacing": p.get("tol") is not None and len(case["pool"]) % 3 == 1,
             "failed_perturbed_runs": "none" if p.get("fail") is None else
                                      f"perturbations {p['fail']['perts']} of one realization, perturbation_min_success={p.get('pert_min_success')}",
             "all_rows_stream": any(len(s) <= 2 and s[-1][0] in ("con", "jac") and s[-1][1] not in (0, _n_rows(p) - 1)
@@ -923,7 +956,10 @@ RULE = ("exhaustive: for every configuration {slsqp, cobyla} x {no, non-linear, 
         "0,1,2,3. The driver overwrites ONE array per shape in place, as SciPy does. One case = one configuration + a block of "
         "<= 350 sequences on fresh objects sharing the oracle table, or a chain of 100 (300) random sequences run back to back "
         "on ONE plug-in object and ONE EnsembleEvaluator (start() once per sequence; masked chains alternate between two start "
-        "vectors). A failure stream (slsqp with non-linear constraints, l-bfgs-b; realization_min_success 1 of 2; some perturbed "
+        "vectors). Masked chains restart each run at the point the previous run asked for last, with other values of the fixed "
+        "variables. Three configurations (slsqp both families, l-bfgs-b, cobyla non-linear) set a large optimizer.tolerance "
+        "(1/64) and request a fourth pool point 3/512 away from pool point 0 in every coordinate (distinct by the quantifier's "
+        "1e-3(1+|x|), closer than the tolerance). A failure stream (slsqp with non-linear constraints, l-bfgs-b; realization_min_success 1 of 2; some perturbed "
         "runs of one realization return NaN near one pool point while its unperturbed run succeeds; perturbation_min_success "
         "default and explicit, failing and tolerated) makes the combined function+gradient evaluation differ from the "
         "functions-only one if the failure mask of the gradient leaks into the value. Non-trivial = the block contains a sequence with >= 2 requests at >= 2 different points; distinct = "
